@@ -133,7 +133,7 @@ def run(tier, seed, replay=None):
         whats = {p["what"] for p in o["problems"]}
         rawok = o["kind"] in ("ok", "differs") and not (whats & {".raw_out", ".rtn", "echoed to the terminal"})
         view = {"dollar": "dollar", "object": "out", "iter": "iter"}[s["form"]]
-        otraces.append({"scn": s, "cmd": t["cmd"], "obs": o, "feat": {"payload": s["payload"], "size": s["size"], "view": view},
+        otraces.append({"scn": s, "cmd": t["cmd"], "obs": o, "feat": {"payload": s["payload"], "size": s["size"], "view": view, "multiread": bool(s["size"] > 1024 or s.get("chunk", 65536) < s["size"])},
                         "steps": [{"cmd": "capture", "obs": {"ok": bool(o["ok"]), "rawok": bool(rawok)}}]})
     ocfg = "SPECIFICATION Spec\nCONSTANTS\n  N = 1\n  PipeCap = 1\n  ReadMax = 1\n  Hint = 1\n  FROrder <- CodeOrder\n  Deviations = {}\n"
     ostats = core.validate_with_findings(res, "CaptureObsTrace", otraces, ocfg, describe=describe_obs, timeout=3000, project=lambda t: {"feat": t["feat"], "steps": t["steps"]})
